@@ -1,26 +1,120 @@
-# Per-property configuration of the ./check driver.
+# Per-property configuration of the ./check driver (read by ./check and tools/mkmanifest.py).
 STATEFUL_ASSUMPTIONS = [
-    "messages are delivered as Go structs to the real MsgServiceRouter (no signatures, ante handlers or tx fees)",
-    "module-account permissions and blocked addresses are a copy of app/app.go",
-    "the block lifecycle (per-message cache branch written only on success, handler panics recovered as failures) is harness code modelled on baseapp.runTx",
+    "messages are delivered as wire-decoded protobuf messages to the real MsgServiceRouter (no signatures, ante handlers or tx fees)",
+    "module-account permissions and blocked addresses are a copy of app/app.go (the app package does not build offline)",
+    "the block lifecycle (per-message cache branch written only on success, handler panics recovered as failures, BeginBlock of x/ecocredit) is harness code modelled on baseapp.runTx",
     "credit-type precision is 6 everywhere (CreditType.Validate locks it)",
+    "block times are strictly increasing and after 1970",
 ]
+GEN = ("rapid state machine: a generated valid genesis (fees, allowlist, allowed denoms, fee rates, bridge chains, sequences near the padded width) then a history of "
+       "state-aware steps drawn from a weighted profile over all message types, blocks (1 ns .. years, landing on expirations), restarts and faucet steps; ")
+DIST = " Distinct = distinct (step kind, accepted?) sequences."
 
-def stateful(test, rule, quick=600, thorough=20000, qsteps=40, tsteps=70, extra=None):
+def stateful(test, rule, quick=480, thorough=24000, qsteps=40, tsteps=70, extra=None, qtimeout=900):
     d = {
-        "test": test, "rule": rule, "assumptions": list(STATEFUL_ASSUMPTIONS),
-        "quick": {"checks": quick, "steps": qsteps, "shards": 4, "timeout": 600, "shrink": "15s"},
-        "thorough": {"checks": thorough, "steps": tsteps, "shards": 16, "timeout": 3000, "shrink": "60s"},
+        "test": test, "rule": GEN + rule + DIST, "assumptions": list(STATEFUL_ASSUMPTIONS),
+        "quick": {"checks": quick, "steps": qsteps, "shards": 4, "timeout": qtimeout, "shrink": "15s"},
+        "thorough": {"checks": thorough, "steps": tsteps, "shards": 16, "timeout": 5400, "shrink": "60s"},
     }
     if extra:
-        d.update(extra)
+        for k, v in extra.items():
+            if isinstance(v, dict) and k in d:
+                d[k].update(v)
+            else:
+                d[k] = v
+    return d
+
+def pure(test, rule, quick, thorough, assumptions, fuzz=None):
+    d = {
+        "test": test, "rule": rule, "assumptions": assumptions,
+        "quick": {"checks": quick, "shards": 4, "timeout": 900, "shrink": "15s"},
+        "thorough": {"checks": thorough, "shards": 16, "timeout": 5400, "shrink": "60s"},
+    }
+    if fuzz:
+        d["thorough"]["fuzz"] = fuzz
     return d
 
 CHECKS = {
     "C01": stateful("TestC01",
-        "rapid state machine over all ecocredit/basket/marketplace messages + bank sends + blocks/restarts from a generated valid genesis; "
-        "after every accepted message and every block: per-batch supply == sum(tradable+escrowed)+basket holdings, retired supply == sum retired, "
-        "every stored amount non-negative and within precision, registered batch-supply invariant not broken. "
-        "Non-trivial = history with accepted messages from >=3 of the families {issue, move, basket, market} AND a state where one batch is simultaneously "
-        "held by a basket and escrowed; distinct = distinct (kind,accepted) step sequences"),
+        "oracle after every accepted message and every block: per-batch tradable supply == sum(tradable+escrowed)+basket holdings, retired supply == sum retired, "
+        "every stored amount non-negative and within precision (exact rationals + the chain's own fixed parser), registered batch-supply invariant not broken. "
+        "Non-trivial = accepted messages from >=3 of the families {issue, move, basket, market} AND a state where one batch is simultaneously held by a basket and escrowed."),
+    "C02": stateful("TestC02",
+        "ghost ledger issued[batch] fed from accepted CreateBatch/MintBatchCredits/BridgeReceive contents; after every step T+R+C == issued, no batch appears without an issuing message, "
+        "open never goes false->true, a sealed batch's total is frozen and no mint into a sealed batch is accepted. "
+        "Non-trivial = history with an accepted mint or bridge receive, >=2 different accepted retire/cancel routes and an accepted seal."),
+    "C03": stateful("TestC03",
+        "around every accepted message: for every account that is not a signer, tradable and escrowed credits and every bank balance do not decrease, except escrow of a seller whose order is filled "
+        "(exactly the bought quantity, and the seller is paid the reference amount in the ask denom) and the fee pool under the authority's GovSendFromFeePool; BeginBlock only moves expired quantities escrow->tradable and never touches the bank. "
+        "Non-trivial = >=3 accounts hold credits and >=1 third-party-affecting step (fill, send, expiry) is accepted."),
+    "C04": stateful("TestC04",
+        "parent/child comparison across every accepted message, block and restart: retired balance per (account,batch), retired supply and cancelled supply never decrease and their rows never disappear. "
+        "Non-trivial = a balance row with a non-zero retired amount is subsequently written by >=3 different step kinds."),
+    "C05": stateful("TestC05",
+        "after every step, per basket: bank supply(basket denom) == sum(basket balances) x 10^precision exactly; Put mints exactly amount x 10^p to the depositor and reports it; Take burns exactly the amount, "
+        "debits the owner and releases amount/10^p credits; the registered basket-supply invariant is not broken. "
+        "Non-trivial = >=2 of {two baskets share a batch, a take spanning two batches, a basket-token transfer}."),
+    "C06": stateful("TestC06",
+        "after every step: escrowed(seller,batch) == sum of that seller's open order quantities; every order has positive in-precision quantity, positive integer ask, existing batch and market; "
+        "accepted Sell / UpdateSellOrders name a denom that is in AllowedDenom in the pre-state. Non-trivial = an update after a partial fill or an expiry after an update."),
+    "C07": stateful("TestC07",
+        "every accepted BuyDirect is compared with an exact-rational sequential reference computed from the pre-state orders, fee params and request: credits to the buyer (retired iff auto-retire), seller escrow and order quantity, "
+        "denom/price/auto-retire guards, seller credit and fee (or uregen burn) each within one base unit per fill, buyer debit == seller credits + fees and <= exact total, max fee >= floor(buyer fee), and a frame over all tables and balances. "
+        "Non-trivial = accepted buy with a non-integral quantity x ask or a non-zero fee."),
+    "C08": stateful("TestC08",
+        "for every accepted role-guarded message the role predicate (issuer, batch issuer+open, class/project admin, curator, seller, resolver manager/public, allow-listed creator, governance authority) is evaluated on the PRE-state snapshot; "
+        "the row-level diff is confined to the entity the message names (field-level for update messages); the four unimplemented RPCs are never accepted; a sealed batch's row never changes. "
+        "Non-trivial = a guarded message accepted after the role moved AND a former holder rejected."),
+    "C09": stateful("TestC09",
+        "custom step 'roundtrip' (and always at the end): ExportGenesis of ecocredit+data (+auth,bank) -> each module's ValidateGenesis -> InitGenesis into an empty chain -> re-export byte-identical after JSON canonicalisation -> registered invariants hold on the imported chain. "
+        "Non-trivial = a round trip over a state with rows in >=10 tables.", quick=320),
+    "C10": stateful("TestC10",
+        "differential: each generated trace is executed 6 times in-process (as generated, again, with restarts at all / none / the complementary set of block boundaries, and with the failed messages removed) and, in the thorough tier, once more in a second OS process; "
+        "per-block app hash, per-message success flag, ABCI code, response bytes, event bytes and gas must be identical (block hashes only for the failed-messages-removed run). "
+        "Non-trivial = a restart strictly inside the history followed by >=5 accepted messages, with data-module messages accepted.", quick=160, thorough=6000),
+    "C11": stateful("TestC11",
+        "Put: accepted <=> reference admission rule (basket exists, class listed, type matches, start date >= criterion computed with exact calendar arithmetic at block time, amount positive within precision, cumulative owner balance) - both directions; "
+        "Take: auto-retire honoured, delivered retired iff retire applies, response sums to amount/10^p, every entry but the last drains its batch, start dates non-decreasing, no untouched older batch, post-state balances match. "
+        "Non-trivial = a put exactly at the date boundary or a multi-batch take whose deposit order differs from date order."),
+    "C12": stateful("TestC12",
+        "at every BeginBlock(T): no panic; no order with expiration <= T survives; every removed order was expired and its quantity moved escrow->tradable per (seller,batch); all other orders and balance rows identical; no other table changes; no accepted BuyDirect of an expired order. "
+        "Non-trivial = a block removing >=2 orders of one seller/batch or an order whose expiration equals T."),
+    "C13": stateful("TestC13",
+        "ghost set of (class, origin id, source) fed by accepted CreateBatch/Mint/BridgeReceive: a second acceptance is a violation and the index never loses an entry; BridgeReceive only from allowed (lower-cased) sources; (class,contract)->batch is a function that never changes and later receipts mint into that batch; "
+        "Bridge only to allowed targets and bound batches, cancels exactly the amounts and every EventBridge carries the batch's contract, amount, owner, recipient, target. "
+        "Non-trivial = a replay attempted through a different entry point than the original AND an accepted Bridge."),
+    "C14": stateful("TestC14|TestC14Pure",
+        "stateful: ghost sequence counters per credit type / class / project start at the genesis sequences and advance only on success; every creation returns the independently formatted next id; stored sequences equal the ghosts; ids unique, match independently written regexes and the repo validators, parsers recover embedded ids, every reference resolves. "
+        "pure: for arbitrary strings the validators accept exactly the regex language; formatters x parsers round-trip for all abbreviations, sequence numbers up to 2^64-1 and dates in years 1..9999. "
+        "Non-trivial = a failed creation between two successes, or a creation crossing the zero-padded width.",
+        extra={"thorough": {"fuzz": [{"target": "FuzzC14Validators", "time": "120s"}]}}),
+    "C15": pure("TestC15",
+        "generated raw/graph content hashes (hash length 20..64, field values from {1,2,255,256,257,2^16,2^32-1,random}), near pairs differing in one field/byte/extension/type, and strings for the parser "
+        "(mutated valid IRIs, arbitrary payloads re-encoded with a correct base58check checksum, non-canonical base58, extension variants). Oracles: ParseIRI(ToIRI(h)) == h (also via the ConvertHashToIRI/ConvertIRIToHash queries), "
+        "h1 != h2 => ToIRI(h1) != ToIRI(h2), and any string parsing to a VALID content hash is its canonical IRI. Non-trivial = a valid hash with a field > 255, a valid near pair, or a string that parses to an anchorable hash; distinct = distinct cases.",
+        80000, 6000000, ["'accepts' in clause (c) is read as: parses to a content hash that passes Validate (what a message can anchor)"],
+        fuzz=[{"target": "FuzzC15ParseIRI", "time": "180s"}]),
+    "C16": stateful("TestC16",
+        "configurations: production hasher, MinLength 1/2/8, and weak hashes with k in {1,2,3,16} distinct outputs (incl. repeated-byte outputs) injected through the verif build-tag hook; histories of Anchor/Attest/DefineResolver/RegisterResolver over a pool of 14 content hashes. "
+        "After every step: DataID is a growing bijection id<->iri that never changes, anchor timestamp == block time of first anchoring forever, attestations written once, resolver rows and registrations never lost or changed, responses return stored iri/timestamp, only managers register to private resolvers. "
+        "Non-trivial = >=3 IRIs share a probe prefix AND an IRI is re-anchored in a later block.", quick=800, thorough=40000),
+    "C17": stateful("TestC17",
+        "custom steps 'query' and 'get': 27 list queries (filter argument present / absent / prefix-of-present; page sizes 1,2,3,5,n-1,n,n+1,1000; forward and reverse) walked by key and by offset through the real GRPCQueryRouter and compared as multisets and as sequences with a brute-force filter over the snapshot, "
+        "totals checked on count_total requests; 11 single-entity queries compared with the stored rows. Genesis may contain prefix-colliding ids (C10/C100, C10-100/C10-1000). "
+        "Non-trivial = a multi-page walk of a filtered query whose argument is a string prefix of (or prefixed by) another present argument.", qsteps=50),
+    "C18": stateful("TestC18",
+        "configurations = genesis values accepted by ValidateGenesis and governance messages accepted by their validators over boundary sets (fee unset/0/1/typical/>funds; rates '', 0, 0.0, tiny, 1, >1, 34+ digits; allowlist; allowed denoms). At genesis and after every accepted configuration change, canary operations whose own preconditions the harness establishes "
+        "(CreateClass and basket Create by an eligible funded creator offering the fee, Put, Take, Sell in an allowed denom, BuyDirect with funds and ample max fee) run on a discarded branch and must all succeed; creations debit exactly the fee and burn it; below-fee offers are rejected; every accepted creation in the history is checked the same way. "
+        "Non-trivial = a configuration with a boundary value followed by >=3 canary runs.", quick=320, qsteps=30),
+    "C19": pure("TestC19",
+        "pairs of decimal strings from a grammar (signs, 0..40 digit coefficients with a point anywhere, e/E exponents -30..40, zeros incl. -0 / 0e5 / 0.000; pairs biased to equal values, one ulp apart, products/quotients straddling 34 digits) checked against math/big.Rat: parse, Add/Sub exact, guarded subtraction, MulExact/QuoExact exact-or-error, "
+        "Mul/Quo within one unit of the 34th digit, SdkIntTrim == truncation (within 256 bits), BigInt, plain String() that re-parses, predicates, NumDecimalPlaces, and bit-identical operands (reflection over coefficient words) after every operation and after operating on results. "
+        "Non-trivial = exact product or quotient not representable in 34 digits, or a zero/negative operand; distinct = distinct pairs.",
+        200000, 12000000, ["SdkIntTrim is only checked for values that fit cosmossdk.io/math.Int (256 bits)"],
+        fuzz=[{"target": "FuzzC19", "time": "180s"}]),
+    "C20": pure("TestC20",
+        "owners (20/32-byte, lower and upper case bech32), connection ids, inner messages of six registered types with arbitrary field contents, block times, and the four channel/capability combinations (with decoy channels and capabilities for other owners/connections); the outer message is marshalled, unmarshalled and UnpackInterfaces'd before the call; "
+        "hand-written recording fakes check the exact lookups, exactly one SendTx iff both exist with that capability/connection/port, EXECUTE_TX, empty memo, timeout == block time + 60 s, and packet data that decodes to exactly one message byte-identical to the supplied one. "
+        "Non-trivial = both lookups succeed and the inner message has non-default fields; distinct = distinct cases.",
+        40000, 3000000, ["the ICA controller and capability keepers are hand-written fakes"]),
 }
